@@ -570,4 +570,12 @@ Section Soundness.
     destruct (core_progress k [] e T [] Hi Hok) as [v Hv].
     exists v. split; [exact Hv|]. eapply core_soundness; eassumption.
   Qed.
+
+  (* whole programs: accepted => the main expression evaluates to a value of the inferred type *)
+  Corollary core_program_safety : forall k e T,
+    infer_prog fns k e = Some T -> exists v, eval fns k [] e = Some v /\ memb v T = true.
+  Proof.
+    intros k e T H. unfold infer_prog in H.
+    destruct (forallb _ fns); [|discriminate]. apply core_type_safety. exact H.
+  Qed.
 End Soundness.
